@@ -538,7 +538,13 @@ func c11Dropped(p *core.Prog, r *core.Report) {
 		}
 		sort.Strings(ks)
 		both := len(keys) >= 2
-		told := len(p.CallsDeep(f, 1, "Peer.connectionCloseStateChange"))
+		told := len(core.CallsIn(f, "Peer.connectionCloseStateChange"))
+		for _, ls := range peerLookupsDeep(p, f) {
+			// a helper that looks the peer up and tells it: once per call of the helper
+			if ls.Via != nil && len(core.CallsIn(ls.At.Parent(), "Peer.connectionCloseStateChange")) > 0 {
+				told++
+			}
+		}
 		for _, a := range f.AnonFuncs {
 			if len(core.CallsIn(a, "Peer.connectionCloseStateChange")) > 0 {
 				told += len(peerLookupsDeep(p, f)) // the closure is the notifier: once per lookup site
@@ -547,7 +553,7 @@ func c11Dropped(p *core.Prog, r *core.Report) {
 		// neither notification may depend on the other peer being absent
 		indep := true
 		for _, ls := range peerLookupsDeep(p, f) {
-			if factsAt(ls.At.Block()).hasBool(func(v ssa.Value) bool {
+			if ls.guards().hasBool(func(v ssa.Value) bool {
 				ex, ok := v.(*ssa.Extract)
 				if !ok || ex.Index != 1 {
 					return false
